@@ -47,7 +47,7 @@ TIMEOUT = {"quick": 1200, "thorough": 7200}
 
 NSLICE = {"quick": 12, "thorough": 16}
 NRANDOM = {"quick": 260000, "thorough": 20000000}     # random floats (all shards)
-NCARDS = {"quick": 3000, "thorough": 100000}          # card files (all shards)
+NCARDS = {"quick": 6000, "thorough": 100000}          # card files (all shards)
 NTIES = {"quick": 6, "thorough": 120}                 # random tie mantissas per decade
 
 MANT = ["1", "1.0000000000000002", "1.5", "2.5", "4.9999999999999", "4.99995",
